@@ -320,6 +320,12 @@ def biReadFS (width : Nat) (df : StoreF) (asof : Option Int) (sel : Sel) : TSF :
 def historyFF (log : List (Int × TSF)) : Option StoreF :=
   log.foldl (fun st v => some (biMergeF st (BiF v.2 v.1))) none
 
+/-- `bi_merge` of two frames with the rejected input (both empty: `pd.concat([])` raises) -/
+def biMergeFE (old : Option StoreF) (new : StoreF) : Res StoreF :=
+  match old with
+  | none => .ok new
+  | some o => if (o ++ new).isEmpty then .error .value else .ok (biMergeF (some o) new)
+
 /-- every published frame row, in merge order -/
 def logRowsF (log : List (Int × TSF)) : StoreF := log.flatMap fun v => BiF v.2 v.1
 
